@@ -5271,6 +5271,11 @@ class TLSConnection(TLSRecordLayer):
         hashAndAlgsExt = clientHello.getExtension(
             ExtensionType.signature_algorithms)
 
+        if version < (3, 3):
+            # the extension governs TLS 1.2 and later only (RFC 5246,
+            # section 7.4.1.4.1); earlier versions have fixed algorithms
+            hashAndAlgsExt = None
+
         if version > (3, 3):
             if not hashAndAlgsExt:
                 # the error checking was done before hand, likely we're
